@@ -6,7 +6,9 @@ var All = map[string]func(tier string) int{
 	"C01": C01,
 	"C02": C02,
 	"C03": C03,
+	"C04": C04,
 	"C05": C05,
 	"C06": C06,
 	"C07": C07,
+	"C08": C08,
 }
